@@ -1,4 +1,4 @@
-"""D29 (C08): irregular (unstructured) 3D file converted with heuristic header detection: a trace-header field with
+"""D30 (C08): irregular (unstructured) 3D file converted with heuristic header detection: a trace-header field with
 the same non-zero value in every source trace is kept in the header template, and get_tracefield_values(field) (since the
 D28 fix: np.full of the template value) returns that value at the grid positions that hold NO trace, where the stored
 arrays -- and the same field under 'thorough' / 'exhaustive' detection -- have zeros."""
